@@ -96,7 +96,7 @@ func c10Scenarios(tier string) []Spec {
 	shapes := []string{"chain4", "fork", "diamond"}
 	concs := []int{1, 2}
 	if tier == "thorough" {
-		shapes = []string{"chain3", "chain4", "fork", "diamond", "heads3", "stale", "chain6"}
+		shapes = []string{"chain3", "chain4", "fork", "diamond", "heads3", "stale", "chain6", "oldhead"}
 		concs = []int{1, 2, 3}
 	}
 	var specs []Spec
@@ -111,6 +111,18 @@ func c10Scenarios(tier string) []Spec {
 					ls := loadSpec{Shape: sh, Loader: ld, Conc: c, N: n}
 					specs = append(specs, Spec{HBCache: true, RaceBound: 0, Shards: 1, Sc: makeLoad("C10", ls, judgeC10)})
 				}
+			}
+		}
+	}
+	if tier != "thorough" {
+		// a two-headed log with one stale head (a short old branch next to a long new one): which block arrives first
+		// decides what a limited load has "seen" when it meets the stale head
+		for _, ld := range []string{"multihash", "entry"} {
+			for _, n := range []int{3} {
+				ls := loadSpec{Shape: "oldhead", Loader: ld, Conc: 2, N: n}
+				// deviation-bounded (every schedule that departs from the default one at no more than three points):
+				// the unbounded space of this shape is 20M states
+				specs = append(specs, Spec{DevBound: 3, Shards: 2, NoRace: true, Sc: makeLoad("C10", ls, judgeC10)})
 			}
 		}
 	}
